@@ -43,18 +43,18 @@ type Stats struct {
 }
 
 type rewriter struct {
-	fset    *token.FileSet
-	pkg     *packages.Package
-	info    *types.Info
-	typeOv  map[ast.Expr]types.Type
-	skip    map[ast.Node]bool
-	changed bool
-	needVS  bool
-	counts  map[string]int
-	tmp     int
-	opts    *Options
-	relFile string
-	lhs     map[ast.Expr]bool
+	fset     *token.FileSet
+	pkg      *packages.Package
+	info     *types.Info
+	typeOv   map[ast.Expr]types.Type
+	skip     map[ast.Node]bool
+	changed  bool
+	needVS   bool
+	counts   map[string]int
+	tmp      int
+	opts     *Options
+	relFile  string
+	lhs      map[ast.Expr]bool
 	funcLits []*ast.FuncLit // enclosing function literals during the walk
 }
 
@@ -216,6 +216,27 @@ func (rw *rewriter) isAtomicCall(n *ast.CallExpr) bool {
 	return ok && fn.Pkg() != nil && fn.Pkg().Path() == "sync/atomic"
 }
 
+// isSysCall: a call of a package-level function of os / io/ioutil from one of the disk packages (a file
+// system call: the host file system is shared state, so the call is a scheduling point).
+func (rw *rewriter) isSysCall(n *ast.CallExpr) bool {
+	if !strings.HasSuffix(rw.pkg.PkgPath, "filesystem/disk") && !strings.HasSuffix(rw.pkg.PkgPath, "filesystem/filespace/diskfs") {
+		return false
+	}
+	sel, ok := n.Fun.(*ast.SelectorExpr)
+	if !ok || len(n.Args) == 0 || strings.HasPrefix(sel.Sel.Name, "Is") {
+		return false
+	}
+	id, ok := sel.X.(*ast.Ident)
+	if !ok {
+		return false
+	}
+	if _, ok := rw.info.Uses[id].(*types.PkgName); !ok {
+		return false
+	}
+	fn, ok := rw.info.Uses[sel.Sel].(*types.Func)
+	return ok && fn.Pkg() != nil && (fn.Pkg().Path() == "os" || fn.Pkg().Path() == "io/ioutil")
+}
+
 func (rw *rewriter) isBuiltin(e ast.Expr, name string) bool {
 	id, ok := e.(*ast.Ident)
 	if !ok || id.Name != name {
@@ -345,6 +366,17 @@ func (rw *rewriter) file(f *ast.File, constSet map[string]bool) error {
 					}
 					c.Replace(nc)
 				}
+				return true
+			}
+			if rw.isSysCall(n) {
+				// os.Mkdir(p, m) -> os.Mkdir(vsched.SysArg(p), m): a scheduling point right before the call
+				rw.counts["syscall"]++
+				a0 := n.Args[0]
+				nc := rw.call("SysArg", a0)
+				if t := rw.typeOf(a0); t != nil {
+					rw.typeOv[nc] = t
+				}
+				n.Args[0] = nc
 				return true
 			}
 			switch {
@@ -677,12 +709,17 @@ func (rw *rewriter) selectStmt(n *ast.SelectStmt) ast.Stmt {
 		sw.Body.List = append(sw.Body.List, &ast.CaseClause{List: []ast.Expr{&ast.BasicLit{Kind: token.INT, Value: strconv.Itoa(idx)}}, Body: body})
 		idx++
 	}
+	// unreachable keeps the rewritten statement a terminating statement whenever the select was one
+	// (a function may end in a select whose every case returns).
+	unreachable := &ast.ExprStmt{X: &ast.CallExpr{Fun: ast.NewIdent("panic"), Args: []ast.Expr{&ast.BasicLit{Kind: token.STRING, Value: `"vsched: select without a chosen case"`}}}}
 	if len(caseVars) == 0 && !hasDefault {
-		return &ast.ExprStmt{X: rw.call("Block")}
+		return &ast.BlockStmt{List: []ast.Stmt{&ast.ExprStmt{X: rw.call("Block")}, unreachable}}
 	}
 	def := "false"
 	if hasDefault {
 		def = "true"
+	} else {
+		sw.Body.List = append(sw.Body.List, &ast.CaseClause{List: nil, Body: []ast.Stmt{unreachable}})
 	}
 	args := append([]ast.Expr{ast.NewIdent(def)}, caseVars...)
 	sw.Tag = rw.call("Select", args...)
